@@ -6,7 +6,7 @@ ID = "C16"
 MODULES = ["IoraModel.Props.C16"]
 LEANCHECK = ["IoraModel.Props.C16", "IoraModel.Lemmas.HttpRespond", "IoraModel.Lemmas.HttpRespondConn", "IoraModel.Lemmas.HttpRespondFramer",
              "IoraModel.Model.HttpRespondBase", "IoraModel.Model.HttpServerRespond", "IoraModel.Model.HttpRespondScript", "IoraModel.Model.HttpRespondConn",
-             "IoraModel.Gen.HttpRespond", "IoraModel.Model.HttpRespondRestart", "IoraModel.Lemmas.HttpRespondRestart"]
+             "IoraModel.Gen.HttpRespond", "IoraModel.Model.HttpRespondRestart", "IoraModel.Lemmas.HttpRespondRestart", "IoraModel.Lemmas.HttpRespondHead"]
 OBLIGATIONS = []      # filled from OBLIGATION_TABLE below
 ANCHOR_FILES = ["include/iora/network/http_server.hpp", "include/iora/core/thread_pool.hpp", "include/iora/parsers/http_message.hpp"]
 COMPONENT = "httprespond"
@@ -47,8 +47,9 @@ C16_O1_overflow_env|Iora.C16.O1_overflow_every_env|proved|sendErrorResponse on p
 C16_O1_restart|Iora.C16.O1_restart|proved|across any schedule of arrivals, picks, emits, stop() and start() calls on one HttpServer object every engine command reaches the transport its request arrived on — a worker that outlives stop()'s 2 s drain wait never addresses the next transport, whose session ids start at 1 again (FC16e repaired: epoch captured at dispatch, compared inside all 7 guarded blocks; does not build on the unrepaired tree)
 C16_O1_restart_unguarded|Iora.C16.O1_restart_unguarded_refuted|proved|what FC16e's repair prevents: for the worker without the epoch check the statement is false (witness: arrive on session 1, pick, stop, start, emit: a generation-0 request's Send is delivered by the generation-1 transport)
 C16_O1_restart_drained|Iora.C16.O1_restart_partial_drained|proved|with or without the epoch check: if start() is only called when no task of the previous run is left, every command reaches the transport its request arrived on
-C16_O4_head_refuted|Iora.C16.O4_head_refuted|refuted|FC16d: `a HEAD response has no body` at full strength is false: the error arm, the shutdown arm and sendErrorResponse never look at the method (witness: `HEAD / HTTP/1.1` without Host => 400 + Content-Length: 11 + the 11 bytes `Bad Request`)
-C16_O4_head_partial|Iora.C16.O4_head_partial_normal_path|partial|FC16d partial: on the normal path (parsed, no upgrade taken, not suppressed) the response to HEAD is toWire st text H [] — not one byte behind the header section
+C16_O4_head_every_arm|Iora.C16.O4_head_every_arm|proved|FC16f repaired: request bytes whose request line starts with `HEAD ` get toWire st text H [] — not one byte behind the header section — from EVERY arm and in every environment: shutdown arm (503), error arm (400/414/501/505 parse rejects, 500 of a throwing hook), normal path (auto-HEAD, 405, 404, default handler); the arms outside the normal path decide from the raw bytes (isHeadRequest), the normal path from the parsed method, and the two readings agree for all bytes (fromWireFormat_head); an upgrade the subclass hook accepted is the hook's response; pool overflow is O1_overflow / O1_overflow_every_env with head = isHeadRaw data; does not build on a tree whose arms do not strip (Gen.errorArmsStripHead)
+C16_O4_head_parse|Iora.HttpRespond.fromWireFormat_head|proved|for all bytes: a request that starts with `HEAD ` and that fromWireFormat accepts has the parsed method HEAD (the raw-bytes test of the error arms and the parsed-method test of the normal path agree)
+C16_O4_head_partial|Iora.C16.O4_head_partial_normal_path|proved|the normal path alone, keyed on the parsed method: the response to HEAD is toWire st text H []
 C16_gen_restart|Iora.C16.gen_restart_and_write_queue|proved|Gen conformance: the dispatch lambda carries the transport epoch and every guarded block of the worker checks it, stop() waits 2 s, and poolQueueCap <= maxWriteQueue (start()'s config)
 C16_gen_methods|Iora.C16.gen_methods|proved|Gen conformance: HttpMethod enumerators and parseMethod table agree with the model's Method type
 C16_gen_shape|Iora.C16.gen_connection_tokenised|proved|Gen conformance: the Connection decision found in the source is the tokenised one (F33 repaired) and the 204/304 reconciliation applies to every method (FC16a repaired)
@@ -62,8 +63,6 @@ for _l in OBLIGATION_TABLE.strip().splitlines():
         o["finding"] = "F28"
     if "F31" in _s:
         o["finding"] = "F31"
-    if "FC16d" in _s and _k != "proved":
-        o["finding"] = "FC16d"
     OBLIGATIONS.append(o)
 
 NOT_PROVED = [
@@ -75,8 +74,7 @@ NOT_PROVED = [
     "`_mutex` sections (Send, then Close) is in the model (`emit` per command) but is not forced in the harness; the pool model is of a running server "
     "(sendErrorResponse's guard and a refused Send on the overflow path are modelled per call, `overflowCalls env` / O1_overflow_every_env, and driven by the "
     "`overflow <req> <bits>` op; its `catch (const std::exception &)` force-close branch — an exception out of toWireFormat / sendAsync — is not modelled)",
-    "`a HEAD response has no body` at full strength is false (FC16d, refuted): the error arm, the shutdown arm and sendErrorResponse ignore the method; proved on the normal path "
-    "(O4_head_no_body, O4_head_partial_normal_path)",
+    "O4_head_every_arm excludes one response: an upgrade that the subclass hook accepted for a HEAD request is sent as the hook filled it (the server does not build it)",
     "across stop()/start() on one server object (FC16e, repaired) the restart model abstracts the server to (generation, up, tasks, log); what a HANDLER sends through the "
     "sid-addressed API (sendRaw / sendRawForSse / closeSession, and the upgrade drain's closeSession) after a restart has the same exposure as the unrepaired dispatcher had and is "
     "outside the model — stop() still gives up on running handlers after 2 s",
@@ -98,8 +96,6 @@ NOT_PROVED = [
 
 KEY_F28 = "pipelined-slow-then-fast"
 KEY_F31 = "connection-close-24MiB-slow-reader"      # the key is the finding's name; the body is sized from the host's socket buffers (>= 24 MiB)
-KEY_HEAD = "head-error-arms-carry-body"
-WHAT_HEAD = "a HEAD request answered outside the normal path (400 parse reject, 500 of a throwing seam, 503 at shutdown, 503 on pool overflow) gets the arm's body bytes"
 WHAT_F28 = "pipelined requests are handled by different pool threads and answered in completion order (GET /slow then GET /fast on one connection: FAST response first)"
 WHAT_F31 = "Connection: close + a response larger than the socket buffer: the Close command discards the unsent tail of the write queue (body truncated)"
 
@@ -556,13 +552,13 @@ def gen_seam_cases(ctx, rng, n):
                 meth, path = rng.choice([(b"GET", b"/a"), (b"GET", b"/nope"), (b"POST", b"/p"), (b"HEAD", b"/a"), (b"OPTIONS", b"/a")])
                 d = build_request(rng, meth, path, upgrade=(rng.choice([b"Upgrade", b"upgrade"]), b"websocket"), conn=rng.choice([None, b"Upgrade", b"keep-alive"]),
                                   body=b"xyz" if meth == b"POST" else b"")
-                w = want
+                w = want if meth != b"HEAD" else (500, b"", b"text/plain", 21)      # FC16f: the arm's header section, no body
             else:
                 meth, path = rng.choice([(b"GET", b"/a"), (b"POST", b"/p"), (b"GET", b"/nope"), (b"HEAD", b"/a")])
                 d = build_request(rng, meth, path, body=b"xyz" if meth == b"POST" else b"")
                 # onResponseSuppressed is consulted only after a handler ran (MATCHED / default handler): /a by GET, /p by POST
                 ran = (meth, path) in ((b"GET", b"/a"), (b"POST", b"/p"))
-                w = want if ran else None
+                w = (want if meth != b"HEAD" else (500, b"", b"text/plain", 21)) if ran else None
             ops.append("req %s 010111 d" % hexs(d))
             reqs.append({"method": meth.decode(), "wellformed": True, "want": w, "want_close": True if w else None, "env": "010111", "sess": "d",
                          "upgrade": which == 0, "conn_last": None, "seam_throw": w is not None})
@@ -830,6 +826,12 @@ def monitor_case(c, impl):
         elif not shut and trp:
             if enq and (o["kind"] != "respond" or not o["close"]):
                 bad.append("O1: pool overflow on a running server must give one 503 followed by a close, got %s" % l[:80])
+            try:
+                ov_head = unhex(c["ops"][c["first_req"]].split()[1]).startswith(b"HEAD ")
+            except (ValueError, IndexError):
+                ov_head = False
+            if enq and o["kind"] == "respond" and ov_head and o["bodylen"] != 0:
+                bad.append("O4: the overflow 503 answering a HEAD request carries %d body bytes" % o["bodylen"])
             if not enq and not (o["kind"] == "sendfailed" and o["close"]):
                 bad.append("O1: pool overflow while the engine refuses the Send: the connection must still be closed (the request is otherwise neither answered "
                            "nor is its connection ended), got `%s`" % l[:80])
@@ -899,6 +901,10 @@ def monitor_case(c, impl):
             bad.append("O4: malformed status line: %r" % o["head"][:60])
             continue
         is_error_arm = field(fields, b"Server") is None
+        try:
+            head_raw = unhex(op.split()[1]).startswith(b"HEAD ")
+        except (ValueError, IndexError):
+            head_raw = False
         cl = field(fields, b"Content-Length")
         conn = field(fields, b"Connection")
         # the upgrade arm sends whatever the subclass put into its response (+ Server); it is outside the statement's clauses
@@ -910,8 +916,12 @@ def monitor_case(c, impl):
             if conn not in (b"close", b"keep-alive"):
                 bad.append("O4: Connection header is neither close nor keep-alive: %r" % conn)
         if is_error_arm and up:
-            if not o["close"] or conn != b"close" or cl is None or int(cl) != o["bodylen"]:
+            if not o["close"] or conn != b"close" or cl is None or (int(cl) != o["bodylen"] and not head_raw) or (head_raw and int(cl) == 0):
                 bad.append("O4: error-arm response must carry Connection: close, a matching Content-Length and be followed by close: %s" % l[:120])
+        # a response to HEAD carries no body — on every arm (normal path, error arm, shutdown arm), in every environment; the only response the
+        # server does not build itself is an upgrade the subclass hook accepted
+        if head_raw and o["bodylen"] != 0 and not (c.get("hook_upgrade") and not is_error_arm):
+            bad.append("O4: response to HEAD carries %d body bytes (status %s, %s): %s" % (o["bodylen"], st, "error / shutdown arm" if is_error_arm else "normal path", op[:100]))
         if r.get("expect_error") is not None and up:
             if st != r["expect_error"] or not o["close"]:
                 bad.append("O4: unparseable request must yield status %d + close, got %s close=%s: %s" % (r["expect_error"], st, o["close"], op[:100]))
@@ -1006,8 +1016,8 @@ def e2e_closing_request(rng, rid):
         # HEAD that closes on the normal path: no body byte before the EOF
         return build_request(rng, b"HEAD", rng.choice([b"/s0?id=%d" % rid, b"/big", b"/missing"]), conn=rng.choice([b"close", b"TE, close"])), "HEAD"
     if k == 7:
-        # HEAD that ends in the error arm: the arm's body follows (recorded finding FC16d: the model predicts it, the framer is told `not HEAD`)
-        return build_request(rng, b"HEAD", b"/s0", host=False), "?"
+        # HEAD that ends in the error arm (400, no Host): since FC16f the arm sends the header section only, like every response to HEAD
+        return build_request(rng, b"HEAD", b"/s0", host=False), "HEAD"
     if k < 3:
         return build_request(rng, b"GET", b"/s0?id=%d" % rid, conn=rng.choice([b"close", b"Close", b"TE, close", b"keep-alive, close"])), "GET"
     if k == 3:
@@ -1528,10 +1538,13 @@ def replay_findings(ctx, hb, keys):
             o = parse_outcome(hout[i])
             st = parse_head(o["head"])[0] if o["kind"] == "respond" else None
             arms[name] = (st, o.get("bodylen"))
-        res["FC16d"] = arms["400 parse reject"][0] == 400 and (arms["400 parse reject"][1] or 0) > 0
-        res["FC16d_detail"] = "HEAD request, (status, body bytes on the wire) per arm: %s" % arms
+        res["FC16f_regression"] = "HEAD request, (status, body bytes on the wire) per arm: %s" % arms
+        for name, (st, blen) in arms.items():
+            if st is None or blen is None or blen != 0:
+                other.append("FC16f regression: a HEAD request answered by the arm `%s` must get that arm's header section and no body, got status %s with %s body bytes" % (name, st, blen))
     except Exception as ex:
-        res["error"] = "FC16d: %s: %s / %s" % (type(ex).__name__, ex, [x[:80] for x in hout])
+        ctx.violation("correspondence", "FC16f regression ops (HEAD on the arms outside the normal path) could not be run: %s: %s / %s" % (type(ex).__name__, ex, [x[:80] for x in hout]),
+                      {"broken": {"correspondence": "HEAD error-arm ops against the real code", "detail": str(hout)[:500]}, "ops": hops}, found_input=False)
     # ---- FC16e: stop() + start() on one server object while a handler is still running (real server on loopback)
     hold = b"GET /hold HTTP/1.1\r\nHost: a\r\n\r\n"
     rops = ["reset", "route GET %s sleep:3500,%s" % (hexs(b"/hold"), sc_content(b"SECRET-OF-CLIENT-A")), "e2e start", "e2e restart 2600 %s" % hexs(hold), "e2e stop"]
@@ -1548,15 +1561,13 @@ def replay_findings(ctx, hb, keys):
                       {"broken": {"correspondence": "restart scenario against the real server on loopback", "detail": str(rout)[:500]}, "ops": rops}, found_input=False)
     ctx.extra["finding_replay"] = {k: v for k, v in res.items()}
     for o in other:
-        ctx.violation("property", "O4': " + o if o.startswith("F31") else ("O1: " + o if o.startswith("FC16e") else "O2: " + o),
-                      {"witness": o, "ops": [x[:300] for x in (rops if o.startswith("FC16e") else ops)]}, found_input=True)
+        ctx.violation("property", "O4': " + o if o.startswith("F31") else ("O1: " + o if o.startswith("FC16e") else ("O4: " + o if o.startswith("FC16f") else "O2: " + o)),
+                      {"witness": o, "ops": [x[:300] for x in (rops if o.startswith("FC16e") else (hops if o.startswith("FC16f") else ops))]}, found_input=True)
     wit28 = {"routes": "GET /slow = sleep 300 ms + set_content(SLOW); GET /fast = set_content(FAST)", "one_write": (slow + fast).decode(), "observed": res.get("F28_detail")}
     wit31 = {"route": "GET /huge = set_content(%d bytes)" % huge, "request": "GET /huge HTTP/1.1 + Connection: close; client starts reading after 1.5 s", "observed": res.get("F31_detail")}
-    wit_head = {"ops": hops, "decoded": [show_op(o) for o in hops], "observed": res.get("FC16d_detail")}
-    clause = {"F28": "O3", "F31": "O4'", "FC16d": "O4"}
+    clause = {"F28": "O3", "F31": "O4'"}
     skip = set() if f31_replayable else {"F31"}
-    for fid, key, what, wit, thm in (("F28", KEY_F28, WHAT_F28, wit28, "Iora.C16.O3_refuted"), ("F31", KEY_F31, WHAT_F31, wit31, "Iora.C16.O4p_refuted"),
-                                     ("FC16d", KEY_HEAD, WHAT_HEAD, wit_head, "Iora.C16.O4_head_refuted")):
+    for fid, key, what, wit, thm in (("F28", KEY_F28, WHAT_F28, wit28, "Iora.C16.O3_refuted"), ("F31", KEY_F31, WHAT_F31, wit31, "Iora.C16.O4p_refuted")):
         listed = key in keys
         still = res.get(fid)
         if fid in skip:
@@ -1672,8 +1683,7 @@ def run(ctx: Ctx):
     except OSError:
         pass
     ctx.extra["repo_tree_sha"] = ctx.repo_tree_sha(ANCHOR_FILES)
-    ctx.extra["refuted"] = [{"statement": "Iora.C16.O3_statement", "finding": "F28"}, {"statement": "Iora.C16.O4p_statement", "finding": "F31"},
-                            {"statement": "Iora.C16.O4_head_statement", "finding": "FC16d"}]
+    ctx.extra["refuted"] = [{"statement": "Iora.C16.O3_statement", "finding": "F28"}, {"statement": "Iora.C16.O4p_statement", "finding": "F31"}]
     ctx.extra["not_proved"] = NOT_PROVED
     ctx.assumptions += ["the arrivals of the O1/O2/O3 theorems are the complete requests the server's extractor (handleIncomingData / findChunkedRequestEnd) hands to the pool: "
                         "that extraction is exact — every encoded request, once, with its decoded body — is property C15's, not proved here; C16 ties it by lockstep "
